@@ -32,6 +32,19 @@ class Ctx:
         self.stats[key] = self.stats.get(key, 0) + n
 
 
+def source_drift(prop):
+    import srcdigest
+    files = []
+    try:
+        for l in open(os.path.join(common.VERIF, "properties.jsonl")):
+            p = json.loads(l)
+            if p["id"] == prop:
+                files = p.get("anchors", {}).get("files", [])
+        return srcdigest.drift(common.VERIF, common.REPO, files) or []
+    except Exception as e:  # the fingerprint is an aid, never a reason to fail
+        return [f"<source digest unavailable: {type(e).__name__}>"]
+
+
 def main():
     ap = argparse.ArgumentParser()
     ap.add_argument("prop")
@@ -65,6 +78,16 @@ def main():
     if st.translator_ok and st.extract_ok:
         model = common.Model()
     ctx = Ctx(prop, tier, seed, verdict, st, model)
+
+    # functions of the files this property is anchored in that differ from the recorded baseline (the tree the models
+    # were last tied to): a rewrite of modelled code is where model and code can have parted company, so the first pass
+    # already runs at a larger scale; not a violation by itself
+    drift = source_drift(prop)
+    if drift:
+        ctx.scale = 3
+        ctx.stats["source_drift"] = drift[:60]
+        print(f"{prop}: {len(drift)} function(s) of the anchored sources differ from translator/source_baseline.json "
+              f"({', '.join(drift[:4])}{', ...' if len(drift) > 4 else ''}): first pass at scale 3")
 
     proof = None
     if st.translator_ok:
